@@ -162,6 +162,25 @@ func raceScenarios() []raceScenario {
 		s.rc.Conn.Write(refcodec.Encode(&refcodec.Packet{Type: refcodec.SUBSCRIBE, ID: 5, Topics: [][]byte{[]byte("r")}, QoSs: []byte{1}}))
 		vsched.Quiesce()
 	}, true})
+	// (ii') a retained message is cleared (empty payload) while a new subscription collects
+	// retained messages and another retained message is stored
+	out = append(out, raceScenario{"retained-clear || subscribe || retained insert", func() {
+		t := newTD()
+		p := t.connect("P", 0, 65535, false)
+		p2 := t.connect("P2", 0, 65535, false)
+		s := t.connect("S", 0, 65535, false)
+		p.rc.Send(&refcodec.Packet{Type: refcodec.PUBLISH, Topic: []byte("r/a"), Retain: true, QoS: 1, ID: 1, Payload: []byte("kept-a")})
+		p.rc.Send(&refcodec.Packet{Type: refcodec.PUBLISH, Topic: []byte("r/a/b"), Retain: true, QoS: 1, ID: 2, Payload: []byte("kept-b")})
+		t.settleExcept()
+		if vsched.Failed() {
+			return
+		}
+		vsched.Mark()
+		p.rc.Conn.Write(refcodec.Encode(&refcodec.Packet{Type: refcodec.PUBLISH, Topic: []byte("r/a/b"), Retain: true, QoS: 0}))
+		s.rc.Conn.Write(refcodec.Encode(&refcodec.Packet{Type: refcodec.SUBSCRIBE, ID: 5, Topics: [][]byte{[]byte("r/#")}, QoSs: []byte{1}}))
+		p2.rc.Conn.Write(refcodec.Encode(&refcodec.Packet{Type: refcodec.PUBLISH, Topic: []byte("r/c"), Retain: true, QoS: 0, Payload: []byte("new-c")}))
+		vsched.Quiesce()
+	}, false})
 	// (iii) teardown of a subscriber || fan-out to it
 	out = append(out, raceScenario{"subscriber-teardown || fan-out", func() {
 		t := newTD()
